@@ -773,6 +773,19 @@ func configs(prop, tier string) []*Config {
 			}
 		}
 	}
+	// a few small, maximally concurrent configurations one deviation deeper than
+	// the rest of the tier (quick 3, thorough 4)
+	for _, d := range []Config{
+		{Path: "reader", Sources: []string{shapes[3]}, Matcher: "re", Extract: exFull, Batch: 1, Workers: 2, Readers: 1, Buffer: 1, Chunk: true, Jumps: true},
+		{Path: "reader", Sources: []string{shapes[2]}, Matcher: "re", Extract: exFull, Batch: 2, Workers: 2, Readers: 1, Buffer: 1, Jumps: true},
+		{Path: "files", Sources: []string{shapes[1], shapes[3]}, Matcher: "re", Extract: exFull, Batch: 1, Workers: 2, Readers: 2, Buffer: 1},
+		{Path: "files", Sources: []string{shapes[2], shapes[1]}, Matcher: "re", Extract: exFull, Batch: 1, Workers: 1, Readers: 1, Buffer: 1, Chunk: true},
+	} {
+		d.ErrSrc = -1
+		d.Bound = bound + 1
+		dd := d
+		out = append(out, &dd)
+	}
 	add(Config{Path: "reader", Sources: []string{shapes[8]}, Matcher: "dissect", Extract: exFull, Batch: 1, Workers: 2, Readers: 1, Buffer: 2})
 	add(Config{Path: "reader", Sources: []string{shapes[8]}, Matcher: "re", Extract: exFull, Batch: 1, Workers: 0, Readers: 1, Buffer: 1})
 	add(Config{Path: "files", Sources: []string{shapes[2], shapes[3]}, Matcher: "re", Extract: exFull, Batch: 2, Workers: -1, Readers: 2, Buffer: 1})
@@ -795,6 +808,13 @@ type Case struct {
 
 func worker(w *runner.W) {
 	cfgs := configs(w.Prop, w.Tier)
+	if b := w.Param("bound", ""); b != "" {
+		// experiment switch (-p bound=N): never used by ./check
+		n, _ := strconv.Atoi(b)
+		for _, c := range cfgs {
+			c.Bound = n
+		}
+	}
 	// the explorer interleaves only at synchronisation operations; that is
 	// sound only for race-free code, so C01 runs with the happens-before
 	// detector too and reports a race on pipeline state as its own violation
@@ -855,6 +875,13 @@ func worker(w *runner.W) {
 	}
 	if len(cfgs) > 0 {
 		w.Max("deviation_bound_completed", int64(cfgs[0].Bound))
+		deepest := 0
+		for _, c := range cfgs {
+			if c.Bound > deepest {
+				deepest = c.Bound
+			}
+		}
+		w.Max("deviation_bound_deepest_configurations", int64(deepest))
 	}
 	_ = orders
 }
@@ -896,7 +923,7 @@ func main() {
 		Properties: []string{"C01", "C02", "C05", "C06"},
 		Level:      "model_checking",
 		Rule: func(prop, tier string) string {
-			return "real batcher + extractor workers + consumer (C01/C02) or helpers.RunAggregationLoop with a monitored counter aggregator and status-line readers (C05), compiled onto the controlled runtime; for every configuration of the grid (input shapes over {a,b,CR,LF} incl. CRLF, empty lines, no trailing newline, a line longer than the 4-byte read buffer; batch 1-3, workers 1-2 and 0/-1 (= the default of two), readers 1-2, batch-buffer 1-2; regex/dissect/always matcher; extract/ignore expressions) every schedule with at most 2 (quick) / 3 (thorough) deviations from the default scheduler (delay bounding: run until blocked, then the next goroutine in cyclic order) (preemptions at channel/mutex/atomic/waitgroup/go operations, 1-byte short reads, 250ms clock jumps at clock readings, firing of the 100ms render timer while work is runnable) is executed; blocking switches and select choices are free. States = distinct (configuration, emission order, render positions) outcomes; transitions = scheduling steps. Non-trivial = at least one goroutine switch."
+			return "real batcher + extractor workers + consumer (C01/C02) or helpers.RunAggregationLoop with a monitored counter aggregator and status-line readers (C05), compiled onto the controlled runtime; for every configuration of the grid (input shapes over {a,b,CR,LF} incl. CRLF, empty lines, no trailing newline, a line longer than the 4-byte read buffer; batch 1-3, workers 1-2 and 0/-1 (= the default of two), readers 1-2, batch-buffer 1-2; regex/dissect/always matcher; extract/ignore expressions) every schedule with at most 2 (quick) / 3 (thorough) deviations (one more for four small, maximally concurrent configurations of C01/C02 and one of C05) from the default scheduler (delay bounding: run until blocked, then the next goroutine in cyclic order) (preemptions at channel/mutex/atomic/waitgroup/go operations, 1-byte short reads, 250ms clock jumps at clock readings, firing of the 100ms render timer while work is runnable) is executed; blocking switches and select choices are free. States = distinct (configuration, emission order, render positions) outcomes; transitions = scheduling steps. Non-trivial = at least one goroutine switch."
 		},
 		Assumptions: func(string) []string {
 			return []string{"ReadAheadBufferSize is overridden to 4 (scale only)", "sequentially consistent memory; unsynchronised accesses are reported by the vector-clock detector on struct fields and package variables of the instrumented packages, not on captured locals", "blocked senders on a full channel may be released in any order"}
